@@ -211,6 +211,29 @@ def module_constant(relpath, name):
     return found
 
 
+_MUTATORS = {'update', 'setdefault', 'pop', 'popitem', 'clear', 'append', 'extend', 'insert', 'remove', 'add', 'discard',
+             'sort', 'reverse', '__setitem__', '__delitem__'}
+
+
+def module_state_mutated(relpath, name):
+    """True when the module stores into the module-level container `name` anywhere (subscript store / del, a mutating method
+    call, augmented assignment, `global name`).  Such a container is *state*: its contents at the entry of a function are
+    whatever earlier calls left there, not the literal it was initialised with."""
+    src, tree = module_ast(relpath)
+    for n in ast.walk(tree):
+        if isinstance(n, ast.Subscript) and isinstance(n.value, ast.Name) and n.value.id == name \
+                and isinstance(n.ctx, (ast.Store, ast.Del)):
+            return True
+        if isinstance(n, ast.Call) and isinstance(n.func, ast.Attribute) and isinstance(n.func.value, ast.Name) \
+                and n.func.value.id == name and n.func.attr in _MUTATORS:
+            return True
+        if isinstance(n, ast.AugAssign) and isinstance(n.target, ast.Name) and n.target.id == name:
+            return True
+        if isinstance(n, ast.Global) and name in n.names:
+            return True
+    return False
+
+
 _nt_cache = {}
 
 
